@@ -47,7 +47,7 @@ func init() {
 		Word32: true,
 		Level:  "fault_enumeration",
 		Rule: "E3 fault enumeration: (truncation) every frame of a 40-frame alphabet (4 message kinds × body lengths 0..200) × EVERY cut point k < len(frame) × reader chunkings {whole, 1 byte at a time, and every chunking with ≤1 (thorough ≤2) extra deviations: short read at any byte, data together with io.EOF, one empty read}, the same cuts through 11 standard-library reader types (bytes.Reader, bytes.Buffer, strings.Reader, bufio.Reader of 16/32/64/4096 bytes, io.LimitedReader, io.SectionReader, iotest.OneByteReader, iotest.DataErrReader - code may special-case a reader's dynamic type), and four frames with bodies of 1..3 MiB × cut points within ±1 of m·2^p (p = 9..22, m = 1..3, measured from the frame and from the body start) × {whole, 4 KiB, 64 KiB chunks}: never success, n = k, cause io.EOF for k=0, io.ErrUnexpectedEOF otherwise, either one for k=32; " +
-			"(corrupt header, in a memory-limited worker process) header-size field × body-size field alphabets (0, len±1, 2^31, 2^32, 2^40, 2^47, 2^48, 2^62, 2^63-1, 2^63, 2^63+1, 2^64-1 …) × version bytes {ASCII, 0xff, NUL} × {0, 5, all} body bytes present: header size ≠ 32 ⇒ ErrInvalidHeaderSize after exactly 32 bytes; otherwise success iff the declared body is completely present; never a panic, never a dead process; ReadHeader on every prefix 0..40 of arbitrary bytes returns normally; " +
+			"(corrupt header, in a memory-limited worker process) every single-bit flip and every single-byte replacement (01, 80, ff) of the header-size word and of the body-size word of a valid header; header-size field × body-size field alphabets (0, len±1, 2^31, 2^32, 2^40, 2^47, 2^48, 2^62, 2^63-1, 2^63, 2^63+1, 2^64-1 …) × version bytes {ASCII, 0xff, NUL} × {0, 5, all} body bytes present: header size ≠ 32 ⇒ ErrInvalidHeaderSize after exactly 32 bytes; otherwise success iff the declared body is completely present; never a panic, never a dead process; ReadHeader on every prefix 0..40 of arbitrary bytes returns normally; " +
 			"(writer faults) every frame × EVERY byte budget k ≤ len(frame) × {partial write with error, refusal with count 0, full count TOGETHER with the error on the call that ends exactly at the budget (one-shot; later bytes are recorded)}: (corrupt headers also through three readers that are io.Seekers - iohelper.AtToReader and an over-long io.SectionReader, which report more remaining bytes than they can deliver, and bytes.Reader) Marshal returns that error and the count of accepted bytes, which are exactly frame[:count] - also for 18 longer frames (bodies of 4000..70000 bytes and 1 MiB+1) with budgets at both ends and around 512, 4096, 8192, 65536, 2^20 measured from the start, from the body start and from the end; a payload-length sweep (EVERY length 0..600 × 2 kinds × every cut point and every writer budget); (read errors) a non-EOF error injected at every offset, alone or together with the last bytes, under whole and 1-byte chunkings and after every single chunking deviation (short read at any byte, one empty read): no success unless the frame was delivered completely, n = bytes delivered. A case is one (frame, fault point, mode); non-trivial when the fault point is inside the frame (0 < k < len).",
 		Assumptions: []string{
 			"for a body-size field ≥ 2^63 (no valid frame can have such a body) only 'returns normally and does not succeed' is required; for smaller declared sizes that exceed the stream the truncation clause applies (n = bytes available)",
@@ -329,6 +329,48 @@ func c07CorruptCases() []c07Corrupt {
 			}
 		}
 	}
+	// every SINGLE-BIT and single-byte corruption of the two size words (a valid header with one bit flipped,
+	// or one byte replaced by 01 / 80 / ff, anywhere in its 8 bytes): a validation that looks at part of a
+	// word only lets some of them through
+	seenHS := map[uint64]bool{}
+	for _, x := range hss {
+		seenHS[x] = true
+	}
+	var flips []uint64
+	for b := uint(0); b < 64; b++ {
+		flips = append(flips, 1<<b)
+	}
+	for by := uint(0); by < 8; by++ {
+		for _, v := range []uint64{0x01, 0x80, 0xff} {
+			flips = append(flips, v<<(8*by))
+		}
+	}
+	for _, f := range flips {
+		for _, hs := range []uint64{32 ^ f, 32&^(0xff<<(8*(bitsLen(f)/8))) | f} {
+			if seenHS[hs] {
+				continue
+			}
+			seenHS[hs] = true
+			for _, av := range []int{0, c07Body} {
+				out = append(out, c07Corrupt{hs, c07Body, "1.0.0", av, fmt.Sprintf("hs=%d bs=%d ver=312e302e30 body_bytes_present=%d", hs, c07Body, av), ""})
+			}
+		}
+	}
+	seenBS := map[uint64]bool{}
+	for _, x := range bss {
+		seenBS[x] = true
+	}
+	for _, f := range flips {
+		for _, bs := range []uint64{c07Body ^ f, c07Body&^(0xff<<(8*(bitsLen(f)/8))) | f} {
+			if seenBS[bs] {
+				continue
+			}
+			seenBS[bs] = true
+			for _, av := range []int{0, c07Body} {
+				out = append(out, c07Corrupt{32, bs, "1.0.0", av, fmt.Sprintf("hs=32 bs=%d ver=312e302e30 body_bytes_present=%d", bs, av), ""})
+			}
+		}
+	}
 	// the same declared sizes through readers that are io.Seekers
 	for _, rk := range c07SeekReaders {
 		for _, bs := range bss {
@@ -344,6 +386,16 @@ func c07CorruptCases() []c07Corrupt {
 		}
 	}
 	return out
+}
+
+// bitsLen: index of the highest set bit.
+func bitsLen(x uint64) uint {
+	n := uint(0)
+	for x > 1 {
+		x >>= 1
+		n++
+	}
+	return n
 }
 
 func c07CorruptBytes(cc c07Corrupt) []byte {
